@@ -197,7 +197,8 @@ def run(ctx):
         known_finding_reproducer(ctx)
         coalesce_reproducer(ctx)
     # (a dict-valued option referenced mid-string is the recorded C09 finding: str(dict) has braces)
-    dicts = [d for d in directed.dictionaries() if U.closed(d) and not any(isinstance(d.get(k), dict) for k in ("A", "B", "C"))]
+    dicts = [d for d in directed.dictionaries() if U.closed(d) and not any(isinstance(d.get(k), dict) for k in ("A", "B", "C"))
+             and not any(isinstance(v2, dict) for v in d.values() if isinstance(v, dict) for v2 in v.values())]
     for i, p in enumerate(directed.programs()):
         if i % ctx.shards != ctx.shard:
             continue
